@@ -22,6 +22,20 @@ from streamflow.main import build_context
 _loaded = False
 import logging
 
+# Seam (real time): cwl_utils kills its node process with a threading.Timer after 20 REAL seconds. On a loaded machine
+# an expression evaluation can exceed that; the failure would then depend on the wall clock and not replay. The limit is
+# lifted here; a genuinely endless evaluation is bounded by the run's wall-clock cap instead.
+import cwl_utils.sandboxjs as _sj
+
+if not getattr(_sj.NodeJSEngine.exec_js_process, "_sfsim", False):
+    _orig_exec_js = _sj.NodeJSEngine.exec_js_process
+
+    def _exec_js_process(self, js_text, timeout=None, **kw):
+        return _orig_exec_js(self, js_text, timeout=3600.0, **kw)
+
+    _exec_js_process._sfsim = True
+    _sj.NodeJSEngine.exec_js_process = _exec_js_process
+
 for _n in ("cwltool", "salad", "rdflib", "cwl_utils"):
     logging.getLogger(_n).setLevel(logging.CRITICAL)
 
